@@ -1,3 +1,4 @@
+import MageModel.Gen.StrconvLemmas
 import MageModel.Invoke.Mage
 import MageModel.Invoke.Paths
 import MageModel.Invoke.BuildEnv
@@ -151,6 +152,51 @@ theorem timeout_through_mage (info : PkgInfo) (conv : Conv) (out : Call → Outc
   · split <;> try rfl
     split <;> rfl
   · rfl
+
+theorem timeout_through_mage_at (info : PkgInfo) (conv : Conv) (out : Call → Outcome) (fmtDur : Int → String) (E : Env) (inv : Inv)
+    (hrt : inv.timeout > 0 → conv.parseDuration (fmtDur inv.timeout) = some inv.timeout)
+    (hne : inv.timeout > 0 → fmtDur inv.timeout ≠ "") :
+    (childMain info conv out (childEnv fmtDur E inv) (childArgv inv)).timeout =
+      if inv.timeout > 0 then inv.timeout else envDur conv.parseDuration E "MAGEFILE_TIMEOUT" := by
+  have ht : envDur conv.parseDuration (childEnv fmtDur E inv) "MAGEFILE_TIMEOUT" =
+      if inv.timeout > 0 then inv.timeout else envDur conv.parseDuration E "MAGEFILE_TIMEOUT" := by
+    simp only [envDur, child_timeout_var]
+    by_cases h : inv.timeout > 0
+    · simp [h, hrt h, hne h]
+    · simp [h]
+  simp only [childMain, childArgv, parse_terminator, childCore]
+  simp only [getDur, getBool, lastVal, List.reverse_nil, List.find?_nil, Option.map_none, ht]
+  split <;> try rfl
+  split <;> try rfl
+  split
+  · split <;> try rfl
+    split <;> rfl
+  · rfl
+
+
+/-- the same with the transcribed `Duration.String` and `ParseDuration` (`Gen/Strconv.lean`): no hypothesis about the
+standard library is left for a timeout whose text provably parses back — e.g. every entry of the decided tables
+(`roundTrips_seconds_table`, `roundTrips_typical`); the round trip for *all* durations stays unproved -/
+theorem timeout_through_mage_std (info : PkgInfo) (out : Call → Outcome) (E : Env) (inv : Inv)
+    (hrt : inv.timeout > 0 → MageModel.Gen.Strconv.roundTrips inv.timeout = true) :
+    (childMain info stdConv out (childEnv MageModel.Gen.Strconv.durString E inv) (childArgv inv)).timeout =
+      if inv.timeout > 0 then inv.timeout else envDur stdConv.parseDuration E "MAGEFILE_TIMEOUT" := by
+  have h1 : inv.timeout > 0 →
+      stdConv.parseDuration (MageModel.Gen.Strconv.durString inv.timeout) = some inv.timeout := by
+    intro h; have := hrt h
+    simpa [MageModel.Gen.Strconv.roundTrips, stdConv] using this
+  refine timeout_through_mage_at info stdConv out _ E inv h1 ?_
+  intro h he
+  have := h1 h
+  rw [he] at this
+  have hn : MageModel.Gen.Strconv.parseDuration "" = none := by decide
+  simp [stdConv, hn] at this
+
+/-- `mage -t 90s build`: the compiled program runs under exactly 90 s -/
+example (info : PkgInfo) (out : Call → Outcome) (E : Env) (inv : Inv) (h : inv.timeout = 90000000000) :
+    (childMain info stdConv out (childEnv MageModel.Gen.Strconv.durString E inv) (childArgv inv)).timeout = 90000000000 := by
+  rw [timeout_through_mage_std info out E inv (by rw [h]; intro _; exact MageModel.Gen.Strconv.roundTrips_typical.2.2.2.2.1)]
+  simp [h]
 
 /-! ## same effect as giving the flags to the compiled binary -/
 
